@@ -21,6 +21,10 @@ import (
 type MOp struct {
 	Op
 	DB int `json:"db,omitempty"`
+	// copen: database DB is opened while a second client performs the operations Con on the
+	// already open database ConDB (both share the process-global sequence counter)
+	Con   []Op `json:"con,omitempty"`
+	ConDB int  `json:"condb,omitempty"`
 }
 
 type MultiCase struct {
@@ -35,7 +39,7 @@ type propC05 struct{ seqProp }
 
 func init() {
 	Register(propC05{seqProp{id: "C05",
-		rule: "cases: (a) single-database histories as C01-C03 with Close/Open inserted at seeded positions and transactions left open across Close; (b) 2-3 database directories in one process opened/closed in any order and overlapping in time, sharing the process-global sequence counter, with process boundaries (counter reset while everything is closed) between segments, including 'open a fresh database, write, then open an older, fuller one'; after every step every open database is read back (autocommit and open transactions) against its own reference model, which is carried across reopen; distinct = hash(ops, switch trace); non-trivial = a write was acknowledged after a reopen and a later reopen followed",
+		rule: "cases: (a) single-database histories as C01-C03 with Close/Open inserted at seeded positions and transactions left open across Close; (b) 2-3 database directories in one process opened/closed in any order and overlapping in time, sharing the process-global sequence counter, with process boundaries (counter reset while everything is closed) between segments, including 'open a fresh database, write, then open an older, fuller one', and (every other such case, under a seeded concurrent schedule) 'open a database while a second client keeps overwriting a key of another open one, which is written again afterwards'; after every step every open database is read back (autocommit and open transactions) against its own reference model, which is carried across reopen; distinct = hash(ops, switch trace); non-trivial = a write was acknowledged after a reopen and a later reopen followed",
 		runs: [2]int{3000, 120000}}})
 }
 
@@ -96,6 +100,12 @@ func (p propC05) Gen(r *simrt.Rand, idx int, tier string) any {
 	c.Sched = SchedSpec{Seed: r.Uint64(), Strategy: "seqbg", MaxSteps: 3_000_000}
 	c.World = genWorldSpec(r)
 	c.World.Roots = []RootSpec{{}}
+	// every other multi-database case opens databases while a second client writes to another one
+	concurrentOpen := idx%4 == 3
+	if concurrentOpen {
+		c.Sched = genSched(r, 700)
+		c.Sched.MaxSteps = 3_000_000
+	}
 	open := make([]bool, c.NDB)
 	txOpen := make([][]int, c.NDB)
 	nextTx := 0
@@ -112,6 +122,36 @@ func (p propC05) Gen(r *simrt.Rand, idx int, tier string) any {
 	for len(c.Ops) < n {
 		d := r.Intn(c.NDB)
 		switch {
+		case concurrentOpen && !open[d] && anyOpen() && r.Intn(2) == 0:
+			// open d while another client keeps overwriting one key of an open database; that key is
+			// written again afterwards, and the final phase reopens every database on its own
+			e := 0
+			for x := range open {
+				if open[x] {
+					e = x
+				}
+			}
+			if r.Intn(2) == 0 {
+				// make the database that is about to be opened one with many records to load
+				c.Ops = append(c.Ops, MOp{Op: Op{K: "open"}, DB: d})
+				for b := 0; b < 8+r.Intn(16); b++ {
+					id++
+					c.Ops = append(c.Ops, MOp{Op: Op{K: "set", Key: c.Keys[r.Intn(len(c.Keys))], ID: id, Size: r.Intn(40)}, DB: d})
+				}
+				c.Ops = append(c.Ops, MOp{Op: Op{K: "close"}, DB: d})
+			}
+			key := c.Keys[r.Intn(len(c.Keys))]
+			var con []Op
+			for b := 0; b < 2+r.Intn(6); b++ {
+				id++
+				con = append(con, Op{K: "set", Key: key, ID: id, Size: r.Intn(40)})
+			}
+			c.Ops = append(c.Ops, MOp{Op: Op{K: "copen"}, DB: d, Con: con, ConDB: e})
+			open[d] = true
+			for b := 0; b < 1+r.Intn(3); b++ {
+				id++
+				c.Ops = append(c.Ops, MOp{Op: Op{K: "set", Key: key, ID: id, Size: r.Intn(40)}, DB: e})
+			}
 		case !open[d] && r.Intn(3) > 0:
 			if !anyOpen() && r.Intn(2) == 0 {
 				c.Ops = append(c.Ops, MOp{Op: Op{K: "newproc"}})
@@ -145,7 +185,9 @@ func (p propC05) Gen(r *simrt.Rand, idx int, tier string) any {
 				c.Ops = append(c.Ops, MOp{Op: Op{K: "get", Tx: tx + 1, Key: c.Keys[r.Intn(len(c.Keys))]}, DB: d})
 			case 3:
 				if len(txOpen[d]) < 2 {
-					c.Ops = append(c.Ops, MOp{Op: Op{K: "begin", Tx: nextTx + 1, Level: r.Intn(4)}, DB: d})
+					b := Op{K: "begin", Tx: nextTx + 1, Level: r.Intn(4)}
+					b.NoLvl = b.Level == 1 && nextTx%2 == 0
+					c.Ops = append(c.Ops, MOp{Op: b, DB: d})
 					txOpen[d] = append(txOpen[d], nextTx)
 					nextTx++
 				}
@@ -227,7 +269,7 @@ func (p propC05) Shrink(x any) []any {
 	n := len(m.Ops)
 	for i := n - 1; i >= 0 && len(out) < 150; i-- {
 		o := m.Ops[i]
-		if o.K == "open" || o.K == "close" || o.K == "newproc" {
+		if o.K == "open" || o.K == "copen" || o.K == "close" || o.K == "newproc" {
 			continue // keep the life cycle well-formed
 		}
 		d := m
@@ -267,7 +309,15 @@ func multiExec(c MultiCase, choices []int32) RunOut {
 		}
 	}
 	cfg := c.Sched.config(choices)
-	cfg.Strategy = "seqbg"
+	hasCopen := false
+	for _, o := range c.Ops {
+		if o.K == "copen" {
+			hasCopen = true
+		}
+	}
+	if !hasCopen {
+		cfg.Strategy = "seqbg"
+	}
 	res := simrt.Run(cfg, func() {
 		var err error
 		w, err = NewWorld(c.World, c.Sched.Seed)
@@ -293,7 +343,7 @@ func multiExec(c MultiCase, choices []int32) RunOut {
 						r := OpResult{Err: err, Class: classOf(err), Data: b}
 						if cl, det := compareGet(s.m, id, k, r, idx); cl != "" {
 							ctx := "readback"
-							if after.K == "open" {
+							if after.K == "open" || after.K == "copen" {
 								ctx = "after-open"
 								cl = "reopen-differs"
 							}
@@ -315,8 +365,27 @@ func multiExec(c MultiCase, choices []int32) RunOut {
 			case "newproc":
 				sequence.VerifReset(0)
 				probes["process-boundary"]++
-			case "open":
+			case "open", "copen":
+				var wg simrt.WaitGroup
+				if o.K == "copen" {
+					e := dbs[o.ConDB]
+					wg.Add(1)
+					simrt.GoNamed("client2", 0, func() {
+						defer wg.Done()
+						for _, x := range o.Con {
+							r := e.a.apply(w.Ctx, x)
+							if cl, det := modelApply(e.m, x, r, idx); cl != "" {
+								fail(cl, fmt.Sprintf("op=%s,actor=auto,during-open", x.K), fmt.Sprintf("step %d (%s on db%d while db%d is being opened): %s", i, x, o.ConDB, o.DB, det))
+							}
+							if e.opened > 1 {
+								e.writesAfterReopen = true
+							}
+						}
+					})
+					probes["open-overlapping-writes-elsewhere"]++
+				}
 				db, _, err := openInline(w.Ctx, w.ConfigFor(s.dir, s.roots))
+				wg.Wait()
 				if err != nil {
 					fail("reopen-differs", "open", fmt.Sprintf("step %d: Open of database %d failed: %v", i, o.DB, err))
 					break
